@@ -192,9 +192,9 @@ def smooth_cases(ctx, rnd, focus):
         ctx.need_coverage(r, [{"fixed": "Fixed", "optimal": "Optimal", "mergemin": "MergeMin", "mergetb": "MergeTB", "combofilter": "ComboFilter",
                                "inputs": "Pass"}[o] for o in ops])
         got = r.by_tag("smooth-in")
-        budget = (250 if focus == "C13" else 120) if q else 6000
+        budget = (250 if focus == "C13" else 120) if q else 2000
         if "inputs" in ops:
-            budget = 60 if q else 2500
+            budget = 60 if q else 1500
         if len(got) > budget:
             got = rnd.sample(got, budget)
         for e in got:
@@ -242,12 +242,12 @@ def run_retro(ctx, focus):
         if key not in seen:
             seen.add(key)
             tlc_inputs.append(e["rows"])
-    if len(tlc_inputs) > (90 if ctx.quick else 2500):
-        tlc_inputs = rnd.sample(tlc_inputs, 90 if ctx.quick else 2500)
+    if len(tlc_inputs) > (90 if ctx.quick else 1000):
+        tlc_inputs = rnd.sample(tlc_inputs, 90 if ctx.quick else 1000)
     cases = make_cases(ctx, rnd, tlc_inputs)
     n_plain = len(cases)
     cases += smooth_cases(ctx, rnd, focus)
-    seeds = 2 if ctx.quick else 12
+    seeds = 2 if ctx.quick else 4
     traces, not_returned, returned_by_op = [], {}, {}
     for ci, case in enumerate(cases):
         op, rs, params = case[:3]
